@@ -138,3 +138,15 @@ def run_single(rec: edits.Recorder, tid: int, seed: int, src: str, plan: Plan, m
     trace['script'] = [{'pre_src': src, 'plan': plan.describe(), 'post_src': root.src,
                         'exc': None if exc is None else f'{type(exc).__name__}: {exc}'}]
     return trace
+
+
+def run_single_misc(rec: edits.Recorder, tid: int, seed: int, src: str, m, mode='exec') -> dict:
+    """One misc event (prim_put, par, ...) on a fresh tree."""
+    root = FST(src, mode)
+    trace = {'id': tid, 'seed': seed, 'init': rec.state(root), 'steps': []}
+    exc = edits.execute_misc(m, root)
+    ev = edits.make_misc_event(m, exc, rec.state(root))
+    trace['steps'].append(ev)
+    trace['script'] = [{'pre_src': src, 'plan': m.describe(), 'post_src': root.src,
+                        'exc': None if exc is None else f'{type(exc).__name__}: {exc}'}]
+    return trace
